@@ -365,4 +365,33 @@ theorem lastEntry_mem {es : List Entry} {k : Nat} {e : Entry} (h : lastEntry es 
   have h2 := List.find?_some h
   exact ⟨List.mem_reverse.1 h1, by simpa using h2⟩
 
+/-- the value `u` holds under `k`: its last pair with that key -/
+def lastVal (u : Dict) (k : Nat) : Option Arr := (u.reverse.find? (fun ka => ka.1 == k)).map (·.2)
+
+/-- `self.__dict__.update(u)`: a key of `u` holds `u`'s value afterwards, every other key keeps its own -/
+theorem dictGet_dictUpdate : ∀ (u d : Dict) (k : Nat),
+    dictGet (dictUpdate d u) k =
+      match lastVal u k with
+      | some a => some a
+      | Option.none => dictGet d k
+  | [], d, k => by simp [dictUpdate, lastVal]
+  | ka :: u, d, k => by
+    have ih := dictGet_dictUpdate u (dictSet d ka.1 ka.2) k
+    simp only [dictUpdate, List.foldl_cons] at ih ⊢
+    rw [ih]
+    simp only [lastVal, List.reverse_cons, List.find?_append]
+    cases hf : List.find? (fun ka => ka.1 == k) u.reverse with
+    | some x => simp
+    | none =>
+      simp only [Option.none_or, List.find?_cons, List.find?_nil, Option.map_none]
+      rw [dictGet_dictSet]
+      by_cases hk : ka.1 = k
+      · simp [hk]
+      · have : (ka.1 == k) = false := by simpa using hk
+        have hk' : ¬ k = ka.1 := fun h => hk h.symm
+        simp [this, hk']
+
+theorem fltNe_self (a : Nat) : fltNe a a = isNanBits a := by
+  simp [fltNe]
+
 end FeVerif.Numpy
